@@ -244,6 +244,12 @@ impl Gen<'_> {
                 let b = self.guarded_seq(cx);
                 vec![Rx::Plus(Box::new(Rx::Paren(Box::new(b))))]
             }
+            75..=76 if !deep && self.swarm.choices && !cx.region && self.choice_no < 9 => {
+                // a repetition whose body is an ordered choice
+                let c = self.choice(Ctx { depth: cx.depth + 1, ..cx });
+                let body = Rx::Paren(Box::new(Rx::Seq(c)));
+                vec![if self.rng.chance(1, 2) { Rx::Star(Box::new(body)) } else { Rx::Plus(Box::new(body)) }]
+            }
             75..=82 if !deep => {
                 let n = self.rng.range(2, 3);
                 let alts: Vec<Rx> = (0..n).map(|_| self.guarded_seq(cx)).collect();
@@ -321,7 +327,7 @@ impl Gen<'_> {
         for k in 1..=nalts {
             let last = k == nalts;
             let mut v = vec![Rx::Assert(format!("9{c}{k}"))];
-            if last && self.rng.chance(1, 3) {
+            if last && self.rng.chance(1, 2) {
                 // the last alternative need not share the prefix
                 let t = self.starter();
                 v.push(self.tok_rx(t));
